@@ -63,7 +63,7 @@ def main(argv):
                 rec = json.load(f)
             os.environ["VERIF_SEED"] = str(rec.get("seed", 0))
             os.environ["VERIF_REPLAY"] = "1"
-            if modname == "vf.checks_wire":
+            if hasattr(mod, "replay"):
                 rc = mod.replay(pid, rec.get("case", {}))
                 if rc is not None:
                     return rc
